@@ -2,7 +2,8 @@
 R1 in-place discipline (alias domain) over interpreted entry points + syntactic coverage of every in-place site;
 R2 single writer of BasePrimary._buffers; R3 purity of the computing entry points; R4 features are bound through .of().
 Added after the seeded-defect rounds: R3 also: state stored on the hedger (private attributes), in attribute-held containers or module-level containers; R1: what the model is handed must be fresh storage (every single built-in feature probed).
-Third round: R7 call histories (registries of derivatives and primaries, re-simulation, re-configuration), R7x every history of at most 2 (thorough: 4) registry operations against a reference model."""
+Third round: R7 call histories (registries of derivatives and primaries, re-simulation, re-configuration), R7x every history of at most 2 (thorough: 4) registry operations against a reference model.
+Rounds 4-5: R8 hedger-level call histories; R7 order independence of the state readers; R3m built-in model forwards keep no state; R3f the Black-Scholes factory leaves nothing on the derivative."""
 import ast
 
 from .. import entrypoints as E
